@@ -476,6 +476,46 @@ def run(ctx):
     rows = [i for i in shifts if any(ld.bcallee(j) == 'cppcms::impl::directory::name' for j in ld.calls(i))]
     ctx.check(bool(rows) and all(ld.only_through(i, g_dot) for i in rows), R5, 'list_dir:dot-names-skipped', 'hidden (dot) names can be listed', ld.where)
 
+    # ---------------- R7 what counts as a separator; roots and alias targets are resolved paths
+    R7 = ctx.rule('C13.R7', 'the component-wise prefix test splits at "/" only in this (POSIX) configuration (E3 over every byte: a backslash is an ordinary file-name character, so "www\\x" is not inside "www"); '
+                            'the document root and every alias target are stored only after canonical() resolved them - an unresolved alias is refused, never registered with an empty target '
+                            '(an empty root is a prefix of every path)')
+    ids = [g for g in P.fns.values() if g.short == 'is_directory_separator' and g.body is not None]
+    ctx.require(len(ids) == 1, 'C13.R7: is_directory_separator not found')
+    win = 'CPPCMS_WIN32' in ctx.stats.get('defs', '')
+    acc = set()
+    for (bx, rv, it) in absint.explore(P, lambda it: it.call_fn(ids[0], [it.inbyte(0)]), [[(-128, 127)]]):
+        if not (isinstance(rv, absint.AV) and rv.is_const()):
+            acc.add(None)
+        elif rv.lo:
+            acc |= set(v & 0xFF for v in range(bx[0][0], bx[0][1] + 1))
+    want = {47, 92} if win else {47}
+    ctx.check(acc == want, R7, 'is_directory_separator:exactly-the-separators-of-this-platform', 'bytes accepted as directory separator: %s, expected %s' % (sorted(x for x in acc if x is not None), sorted(want)), ids[0].where)
+    fsc = [g for g in P.fns.values() if g.kind == 'ctor' and (g.record or '').endswith('file_server') and g.body is not None]
+    ctx.require(len(fsc) >= 1, 'C13.R7: file_server constructor not found')
+    fc_ = fsc[0]
+    can = [i for i in fc_.calls() if q.short_of(fc_.callee(i) or '') == 'canonical']
+    pushes = [i for i in fc_.calls() if q.short_of(fc_.callee(i) or '') in ('push_back', 'emplace_back', 'insert') and fc_.obj(i) is not None and any(model.strip_targs(x).endswith('file_server::alias_') for x in fc_.subtree_refs(fc_.obj(i)))]
+    ok7 = len(pushes) >= 1 and len(can) >= 2
+    why7 = 'alias registration / canonical() calls not found'
+    if ok7:
+        for p_ in pushes:
+            outs = [fc_.ref_of(fc_.args(c_)[1]) for c_ in can]
+            mine = [c_ for c_ in can if fc_.ref_of(fc_.args(c_)[1]) and fc_.ref_of(fc_.args(c_)[1]) in q.deep_refs(fc_, p_)]
+            g_ok = q.call_gate(fc_, lambda i: i in mine, True)
+            if not (len(mine) == 1 and bool(g_ok) and fc_.only_through(p_, g_ok)):
+                ok7, why7 = False, 'an alias is registered although canonical() did not resolve its target (the stored target is then empty and matches every path)'
+        rootc = [c_ for c_ in can if model.strip_targs(fc_.ref_of(fc_.args(c_)[1]) or '').endswith('file_server::document_root_')]
+        if ok7 and len(rootc) != 1:
+            ok7, why7 = False, 'the document root is not the out-parameter of canonical()'
+        if ok7:
+            # a failed resolution of the root never lets construction complete normally
+            g_bad = q.call_gate(fc_, lambda i: i == rootc[0], False)
+            for (b_, s_, lab_, tag_) in g_bad:
+                if fc_.exit in fc_.reachable_blocks(start=s_) and not [t_ for t_ in fc_.all_nodes() if fc_.N(t_)['k'] == 'CXXThrowExpr' and fc_.point_of(t_) is not None and fc_.point_of(t_)[0] in fc_.reachable_blocks(start=s_)]:
+                    ok7, why7 = False, 'an unresolvable document root does not stop construction'
+    ctx.check(ok7, R7, 'file_server():roots-and-alias-targets-only-after-canonical()-succeeded', why7, fc_.where)
+    ctx.floor(R7, 2)
     ctx.floor(R1, 6)
     ctx.floor(R2, 9)
     ctx.floor(R3, 4)
